@@ -85,7 +85,7 @@ def is_open(fid):
 def names(tier):
     # long names through the real p_shm_new name handling + real SHA-1 key derivation (harness shared with C06)
     import C06
-    qs = [C06.names(n, kind=1) for n in ([51] if tier == "quick" else C06.NAME_LENS)]
+    qs = [C06.names(n, kind=1) for n in ([51, 100] if tier == "quick" else C06.NAME_LENS)]
     for q in qs: q.name = "shm_" + q.name
     return qs
 def queries(tier):
